@@ -163,18 +163,21 @@ def prove(run):
                 with SH.kernel_stub_mode_tree():
                     va = dn(a)
                     for opname, fn, f in kops:
+                        if f is None:
+                            nat = native_pair(lambda: (lambda c_: (dn((c_.canonicalise(), c_)[1]), dn(a0c) + dn(b0c)))(a0c.copy().add(b0c.copy())), "as for the identities of this case")
+                        else:
+                            nat = native_pair((lambda f_: lambda: (dn(f_(a0c.copy())), dn(a0c)))(f), "as for the identities of this case; real LAPACK kernels")
                         try:
                             if f is None:
                                 c = a.add(b)
                                 ref_ = dn(c)
                                 c.canonicalise()
-                                nat = native_pair(lambda: (lambda c_: (dn((c_.canonicalise(), c_)[1]), dn(a0c) + dn(b0c)))(a0c.copy().add(b0c.copy())), "as for the identities of this case")
                             else:
                                 c = f(a.copy())
                                 ref_ = va
-                                nat = native_pair((lambda f_: lambda: (dn(f_(a0c.copy())), dn(a0c)))(f), "as for the identities of this case; real LAPACK kernels")
                         except Exception as ex:
-                            decide_true(run, f"post:{fn}:{opname}:total@{tag}", fn, False, f"raised on symbolic tensors with stubbed kernels: {type(ex).__name__}: {ex}", case)
+                            decide_true(run, f"post:{fn}:{opname}:total@{tag}", fn, False, f"raised on symbolic tensors with stubbed kernels: {type(ex).__name__}: {ex}", case,
+                                        numeric_replay=nat)
                             continue
                         decide(run, f"post:{fn}:{opname}:object_unchanged@{tag}", fn, dn(c), ref_, case, numeric_replay=nat)
                         decide_true(run, f"post:{fn}:{opname}:labels_valid@{tag}", fn, not T.qnv_tree_violations(c), f"{T.qnv_tree_violations(c)[:1]}", case)
